@@ -360,7 +360,7 @@ func (fv *FuncVC) appendOp(x *ssa.Call) {
 			e.decl("fn:str_at", "(declare-fun str_at (Str Int) Int)")
 			return app("str_at", tv, j)
 		}
-		return app("select", app("select", H, app("s_arr", tv)), app("idx", tv, j))
+		return app("select", app("select", H, app("s_arr", tv)), app("idx", app("s_off", tv), j))
 	}
 	newid := fv.newId()
 	A := e.fresh("apparr", "(Array Int "+es+")")
@@ -372,7 +372,7 @@ func (fv *FuncVC) appendOp(x *ssa.Call) {
 		A, base, base, m, srcAt(app("-", "j", base)), oldArr, A)))
 	// reallocation: A holds the old elements then the new ones, from offset 0
 	fv.assume(implies(not(inplace), and(
-		fmt.Sprintf("(forall ((j Int)) (! (=> (and (<= 0 j) (< j %s)) (= (select %s j) (select %s (idx %s j)))) :pattern ((select %s j)) :pattern ((select %s (idx %s j)))))", n, A, oldArr, sv, A, oldArr, sv),
+		fmt.Sprintf("(forall ((j Int)) (! (=> (and (<= 0 j) (< j %s)) (= (select %s j) (select %s (idx %s j)))) :pattern ((select %s j)) :pattern ((select %s (idx %s j)))))", n, A, oldArr, app("s_off", sv), A, oldArr, app("s_off", sv)),
 		fmt.Sprintf("(forall ((j Int)) (! (=> (and (<= %s j) (< j (+ %s %s))) (= (select %s j) %s)) :pattern ((select %s j))))", n, n, m, A, srcAt(app("-", "j", n)), A),
 		app(">=", newcap, app("+", n, m)))))
 	res := app("ite", inplace,
@@ -407,7 +407,7 @@ func (fv *FuncVC) copyOp(x *ssa.Call) {
 		e.decl("fn:str_at", "(declare-fun str_at (Str Int) Int)")
 		src = app("str_at", sv, app("-", "j", app("s_off", dv)))
 	} else {
-		src = app("select", app("select", H, app("s_arr", sv)), app("idx", sv, app("-", "j", app("s_off", dv))))
+		src = app("select", app("select", H, app("s_arr", sv)), app("idx", app("s_off", sv), app("-", "j", app("s_off", dv))))
 	}
 	fv.assume(fmt.Sprintf("(forall ((j Int)) (! (= (select %s j) (ite (and (<= %s j) (< j (+ %s %s))) %s (select %s j))) :pattern ((select %s j))))",
 		A, app("s_off", dv), app("s_off", dv), k, src, oldArr, A))
